@@ -46,7 +46,7 @@ pub fn property() -> Property {
                 quick: 96,
                 thorough: 1_000,
                 single_shard: false, supplementary: false,
-                run: |cfg| run_part(cfg, (gen::raw_playout(40), 0..6u8, 0..8u8, any::<bool>()), |(r, kind, delay, quit)| thr_case(r, *kind, *delay, *quit), check_threaded),
+                run: |cfg| run_part(cfg, (gen::raw_playout(40), 0..6u8, 0..8u8, any::<bool>(), 0..3u8), |(r, kind, delay, quit, resend)| thr_case(r, *kind, *delay, *quit, *resend), check_threaded),
                 replay: |v| replay_case::<ThrCase, _>(v, check_threaded),
             },
         ],
@@ -331,9 +331,13 @@ pub struct ThrCase {
     pub quit_instead_of_stop: bool,
     #[serde(default)]
     pub new_game_before_follow_up: bool,
+    /// the GUI sends the unchanged `position` command again while the search runs (0 = no, 1 = right after
+    /// `go`, 2 = just before `stop`): whatever an engine does with it, it still holds that position afterwards
+    #[serde(default)]
+    pub resend_position: u8,
 }
 
-fn thr_case(r: &gen::RawPlayout, kind: u8, delay: u8, quit: bool) -> ThrCase {
+fn thr_case(r: &gen::RawPlayout, kind: u8, delay: u8, quit: bool, resend: u8) -> ThrCase {
     // busy middlegames: early positions of playouts from the seeds
     // (clock kept below the fifty-move limit: see the note in C07's build_go)
     let mut start = gen::seed_position(r, ClockDomain::Engine);
@@ -361,14 +365,14 @@ fn thr_case(r: &gen::RawPlayout, kind: u8, delay: u8, quit: bool) -> ThrCase {
             go.stop_after_ms = Some(delays[delay as usize]);
         }
     }
-    ThrCase { fen: g.start.fen(), history: g.moves.iter().map(Mv::uci).collect(), go, quit_instead_of_stop: quit && kind < 3, new_game_before_follow_up: delay % 2 == 1 }
+    ThrCase { fen: g.start.fen(), history: g.moves.iter().map(Mv::uci).collect(), go, quit_instead_of_stop: quit && kind < 3, new_game_before_follow_up: delay % 2 == 1, resend_position: resend }
 }
 
 pub fn check_threaded(c: &ThrCase, ctx: &mut Ctx) -> Result<(), String> {
     let root = root_of(&c.fen, &c.history)?;
     let legal: Vec<String> = root.legal_moves().iter().map(Mv::uci).collect();
     let root_fen = eng::eng_fen(&eng::board_from_pos(&root));
-    let what = format!("position fen {} moves {:?}; `{}` stop after {:?} ms", c.fen, c.history, c.go.to_line(), c.go.stop_after_ms);
+    let what = format!("position fen {} moves {:?}; `{}` stop after {:?} ms{}", c.fen, c.history, c.go.to_line(), c.go.stop_after_ms, ["", "; same position command re-sent right after go", "; same position command re-sent before stop"][c.resend_position.min(2) as usize]);
     // what a fresh engine says at depth 1
     let fresh = {
         let mut s = Session::new();
@@ -396,7 +400,25 @@ pub fn check_threaded(c: &ThrCase, ctx: &mut Ctx) -> Result<(), String> {
         ctx.nontrivial((c.fen.clone(), c.history.clone(), "quit"));
         return Ok(());
     }
-    let out = match s.search(&c.go) {
+    let searched = if c.resend_position == 0 {
+        s.search(&c.go)
+    } else {
+        s.go(&c.go);
+        let wait = c.go.stop_after_ms.or(if c.go.is_unbounded() { Some(30) } else { None });
+        if c.resend_position == 2 {
+            std::thread::sleep(std::time::Duration::from_millis(wait.or(c.go.movetime.map(|m| m / 2)).unwrap_or(20)));
+        }
+        s.position(&c.fen, &c.history)?;
+        ctx.class("position_resent_during_search");
+        if let Some(ms) = wait {
+            if c.resend_position == 1 {
+                std::thread::sleep(std::time::Duration::from_millis(ms));
+            }
+            s.stop();
+        }
+        s.wait_bestmove()
+    };
+    let out = match searched {
         Wait::Done(o) => o,
         Wait::ThreadDied(_, d) if crate::engsess::is_k1_depth_form(crate::props::c07::root_ply(&root), d) => {
             ctx.known.insert(crate::engsess::K1_DEPTH_FORM.to_string());
